@@ -250,6 +250,15 @@ func selfValidate(id string, rep *core.Report) bool {
 		}
 		jobs = append(jobs, job{n, false})
 	}
+	// behaviour-preserving refactors written by independent sub-agents: run those that touch the property's anchor files
+	anchors := anchorFiles(vd, id)
+	as, _ := filepath.Glob(filepath.Join(vd, "selftest", "neg_agents", "*.diff"))
+	sort.Strings(as)
+	for _, a := range as {
+		if touchesAny(a, anchors) {
+			jobs = append(jobs, job{a, false})
+		}
+	}
 	type res struct {
 		j      job
 		state  string // fired, silent, not-applicable, error
@@ -358,6 +367,49 @@ func selfValidate(id string, rep *core.Report) bool {
 		rep.OK("SELFTEST", "checker validation", "-", "%d/%d applicable seeded variants fire, %d/%d behaviour-preserving controls stay silent (%d not applicable to this tree)", nFired, nVar-nNAVar, nSilent, nNeg, nNA)
 	}
 	return ok
+}
+
+// anchorFiles reads the files (and their directories) a property is anchored in from properties.jsonl.
+func anchorFiles(vd, id string) []string {
+	b, err := os.ReadFile(filepath.Join(vd, "properties.jsonl"))
+	if err != nil {
+		return nil
+	}
+	for _, line := range strings.Split(string(b), "\n") {
+		var pr struct {
+			ID      string `json:"id"`
+			Anchors struct {
+				Files []string `json:"files"`
+			} `json:"anchors"`
+		}
+		if json.Unmarshal([]byte(line), &pr) == nil && pr.ID == id {
+			return pr.Anchors.Files
+		}
+	}
+	return nil
+}
+
+// touchesAny: the patch changes a file that is an anchor file, lies in an anchor file's directory, or (no anchors) anything.
+func touchesAny(patch string, anchors []string) bool {
+	if len(anchors) == 0 {
+		return true
+	}
+	b, err := os.ReadFile(patch)
+	if err != nil {
+		return false
+	}
+	for _, line := range strings.Split(string(b), "\n") {
+		if !strings.HasPrefix(line, "+++ b/") && !strings.HasPrefix(line, "--- a/") {
+			continue
+		}
+		f := strings.TrimSpace(line[6:])
+		for _, a := range anchors {
+			if f == a || filepath.Dir(f) == filepath.Dir(a) {
+				return true
+			}
+		}
+	}
+	return false
 }
 
 func truncate(s string, n int) string {
